@@ -14,7 +14,8 @@ def main():
             print("missing tool:", tool)
             return 2
     wd = tlc.workdir_for("selfcheck")
-    mods = sorted(glob.glob(os.path.join(wd, "*.tla")))
+    # RangeSym.tla EXTENDS Apalache (not on SANY's path): it is parsed and type-checked by apalache-mc in the C03 check
+    mods = sorted(m for m in glob.glob(os.path.join(wd, "*.tla")) if "EXTENDS Integers, Sequences, Apalache" not in open(m).read())
     bad = 0
     with concurrent.futures.ThreadPoolExecutor(8) as ex:
         for path, r in zip(mods, ex.map(_try, mods)):
